@@ -1,0 +1,64 @@
+//go:build verif
+// +build verif
+
+package bn256
+
+// Test-only exports for the /verif harness (property C10: field, group and
+// pairing arithmetic). Type aliases and one-line wrappers only: no logic.
+// Compiled only with `-tags verif`.
+
+import (
+	"github.com/dedis/kyber"
+	"golang.org/x/sys/cpu"
+)
+
+// Aliases give an external harness the exported methods (Mul, Square, Invert,
+// Add, Double, MakeAffine, ...) of the unexported tower / curve types. The
+// memory layout of these structs is a flat array of [4]uint64 limbs in
+// Montgomery form (gfP2: x,y; gfP6: x,y,z; gfP12: x,y; points: x,y,z,t).
+type VerifGfP = gfP
+type VerifGfP2 = gfP2
+type VerifGfP6 = gfP6
+type VerifGfP12 = gfP12
+type VerifCurvePoint = curvePoint
+type VerifTwistPoint = twistPoint
+
+// the four assembly primitives on raw limbs (pointers may alias, as in the package)
+func VerifGfpNeg(c, a *[4]uint64)    { gfpNeg((*gfP)(c), (*gfP)(a)) }
+func VerifGfpAdd(c, a, b *[4]uint64) { gfpAdd((*gfP)(c), (*gfP)(a), (*gfP)(b)) }
+func VerifGfpSub(c, a, b *[4]uint64) { gfpSub((*gfP)(c), (*gfP)(a), (*gfP)(b)) }
+func VerifGfpMul(c, a, b *[4]uint64) { gfpMul((*gfP)(c), (*gfP)(a), (*gfP)(b)) }
+
+func VerifMontEncode(c, a *[4]uint64) { montEncode((*gfP)(c), (*gfP)(a)) }
+func VerifMontDecode(c, a *[4]uint64) { montDecode((*gfP)(c), (*gfP)(a)) }
+func VerifGfpInvert(c, a *[4]uint64)  { (*gfP)(c).Invert((*gfP)(a)) }
+func VerifNewGFp(x int64) [4]uint64   { return *newGFp(x) }
+
+// VerifSetBMI2 selects the gfpMul code path (MULX when on) and returns the old setting.
+func VerifSetBMI2(on bool) (old bool) { old = hasBMI2; hasBMI2 = on; return old }
+
+// VerifCPUHasBMI2 reports whether the MULX path can be executed on this host at all.
+func VerifCPUHasBMI2() bool { return cpu.X86.HasBMI2 }
+
+func VerifMiller(q *twistPoint, p *curvePoint) *gfP12     { return miller(q, p) }
+func VerifFinalExponentiation(in *gfP12) *gfP12           { return finalExponentiation(in) }
+func VerifOptimalAte(a *twistPoint, b *curvePoint) *gfP12 { return optimalAte(a, b) }
+func VerifLineFunctionAdd(r, p *twistPoint, q *curvePoint, r2 *gfP2) (a, b, c *gfP2, rOut *twistPoint) {
+	return lineFunctionAdd(r, p, q, r2)
+}
+func VerifLineFunctionDouble(r *twistPoint, q *curvePoint) (a, b, c *gfP2, rOut *twistPoint) {
+	return lineFunctionDouble(r, q)
+}
+func VerifMulLine(ret *gfP12, a, b, c *gfP2) { mulLine(ret, a, b, c) }
+
+// the package's generator values (copies)
+func VerifCurveGen() curvePoint { return *curveGen }
+func VerifTwistGen() twistPoint { return *twistGen }
+func VerifGTGen() gfP12         { return *gfP12Gen }
+func VerifCurveB() [4]uint64    { return *curveB }
+func VerifTwistB() gfP2         { return *twistB }
+
+// the Jacobian / tower value behind a kyber point of this suite
+func VerifG1Of(p kyber.Point) *curvePoint { return p.(*pointG1).g }
+func VerifG2Of(p kyber.Point) *twistPoint { return p.(*pointG2).g }
+func VerifGTOf(p kyber.Point) *gfP12      { return p.(*pointGT).g }
